@@ -168,6 +168,22 @@ class Normaliser:
         return "; ".join(ast.unparse(_Rename(mapping).visit(copy.deepcopy(s))) for s in stmts)
 
     def helper_form(self, name: str) -> Optional[str]:
+        form = self._helper_form(name)
+        if form is None or name not in self.funcs:
+            return form
+        f = self.funcs[name]
+        params = [a.arg for a in f.args.posonlyargs + f.args.args + f.args.kwonlyargs]
+        if f.args.vararg:
+            params.append(f.args.vararg.arg)
+        if f.args.kwarg:
+            params.append(f.args.kwarg.arg)
+        # positional names instead of the helper's own parameter names
+        import re as _re
+        for i, p_ in enumerate(params):
+            form = _re.sub(r"(?<![A-Za-z0-9_])" + _re.escape(p_) + r"(?![A-Za-z0-9_=])", f"P{i}", form)
+        return form
+
+    def _helper_form(self, name: str) -> Optional[str]:
         if name in self.funcs:
             f = self.funcs[name]
             inner = {}
@@ -201,47 +217,47 @@ class Normaliser:
 # canonical forms confirmed against each helper's docstring (INPUT = the value
 # flowing through the pipeline, ⟨x⟩ = the helper's parameter x evaluated from options)
 EXPECTED = {
-    "map": "λ builtins.map(func, INPUT)",
-    "filter": "λ builtins.filter(func, INPUT)",
-    "reduce": "λ _reduce(func=⟨func⟩, iterable=INPUT, initial=⟨initial⟩)",
-    "into": "step return ⟨func⟩(**INPUT) if isinstance(INPUT, Mapping) else ⟨func⟩(*INPUT)",
+    "map": "λ builtins.map(P0, INPUT)",
+    "filter": "λ builtins.filter(P0, INPUT)",
+    "reduce": "λ _reduce(func=⟨P0⟩, iterable=INPUT, initial=⟨P1⟩)",
+    "into": "step return ⟨P0⟩(**INPUT) if isinstance(INPUT, Mapping) else ⟨P0⟩(*INPUT)",
     "flatten": "λ return itertools.chain.from_iterable(INPUT)",
-    "flatmap": "map(func) >> itertools.chain.from_iterable",
-    "map_items": "ID >> λ INPUT.items() >> map(into(func)) >> dict >> MappingProxyType",
-    "map_keys": "map_items(λ (⟨func⟩(INPUT0), INPUT1))",
-    "map_values": "map_items(λ (INPUT0, ⟨func⟩(INPUT1)))",
-    "filter_items": "ID >> λ INPUT.items() >> filter(into(func)) >> dict >> MappingProxyType",
-    "filter_keys": "filter_items(λ ⟨func⟩(INPUT0))",
-    "filter_values": "filter_items(λ ⟨func⟩(INPUT1))",
-    "concat": "λ itertools.chain(INPUT, ⟨iterable⟩)",
-    "append": "concat(collections.evaluatable_tuple(Evaluatable.ensure(item)))",
-    "intersect": "λ set(INPUT) & set(⟨collection⟩)",
-    "union": "λ set(INPUT) | set(⟨collection⟩)",
-    "difference": "λ set(INPUT) - set(⟨collection⟩)",
-    "symmetric_difference": "λ set(INPUT) ^ set(⟨collection⟩)",
-    "get": "λ _get(container=INPUT, key=⟨__x⟩, default=⟨default⟩)",
-    "get_from": "λ _get(container=⟨__x⟩, key=INPUT, default=⟨default⟩)",
-    "add": "λ INPUT + ⟨__x⟩",
-    "subtract": "λ INPUT - ⟨__x⟩",
-    "multiply": "λ INPUT * ⟨__x⟩",
-    "left_multiply": "λ ⟨__x⟩ * INPUT",
-    "divide_by": "λ INPUT / ⟨__x⟩",
-    "divide_into": "λ ⟨__x⟩ / INPUT",
+    "flatmap": "map(P0) >> itertools.chain.from_iterable",
+    "map_items": "ID >> λ INPUT.items() >> map(into(P0)) >> dict >> MappingProxyType",
+    "map_keys": "map_items(λ (⟨P0⟩(INPUT0), INPUT1))",
+    "map_values": "map_items(λ (INPUT0, ⟨P0⟩(INPUT1)))",
+    "filter_items": "ID >> λ INPUT.items() >> filter(into(P0)) >> dict >> MappingProxyType",
+    "filter_keys": "filter_items(λ ⟨P0⟩(INPUT0))",
+    "filter_values": "filter_items(λ ⟨P0⟩(INPUT1))",
+    "concat": "λ itertools.chain(INPUT, ⟨P0⟩)",
+    "append": "concat(collections.evaluatable_tuple(Evaluatable.ensure(P0)))",
+    "intersect": "λ set(INPUT) & set(⟨P0⟩)",
+    "union": "λ set(INPUT) | set(⟨P0⟩)",
+    "difference": "λ set(INPUT) - set(⟨P0⟩)",
+    "symmetric_difference": "λ set(INPUT) ^ set(⟨P0⟩)",
+    "get": "λ _get(container=INPUT, key=⟨P0⟩, default=⟨P1⟩)",
+    "get_from": "λ _get(container=⟨P0⟩, key=INPUT, default=⟨P1⟩)",
+    "add": "λ INPUT + ⟨P0⟩",
+    "subtract": "λ INPUT - ⟨P0⟩",
+    "multiply": "λ INPUT * ⟨P0⟩",
+    "left_multiply": "λ ⟨P0⟩ * INPUT",
+    "divide_by": "λ INPUT / ⟨P0⟩",
+    "divide_into": "λ ⟨P0⟩ / INPUT",
     "negate": "λ return -INPUT",
-    "modulo": "λ INPUT % ⟨__x⟩",
-    "merge": "λ {**INPUT, **⟨mapping⟩}",
+    "modulo": "λ INPUT % ⟨P0⟩",
+    "merge": "λ {**INPUT, **⟨P0⟩}",
     "length": "len",
-    "instance_of": "λ isinstance(INPUT, ⟨TUPLE(*types)⟩)",
-    "all": "λ builtins.all((f(INPUT) for f in ⟨TUPLE(*funcs)⟩))",
-    "any": "λ builtins.any((f(INPUT) for f in ⟨TUPLE(*funcs)⟩))",
-    "invert": "λ not ⟨func⟩(INPUT)",
-    "eq": "λ INPUT == ⟨value⟩",
-    "ne": "λ INPUT != ⟨value⟩",
-    "gt": "λ INPUT > ⟨value⟩",
-    "ge": "λ INPUT >= ⟨value⟩",
-    "lt": "λ INPUT < ⟨value⟩",
-    "le": "λ INPUT <= ⟨value⟩",
-    "has_remainder": "λ INPUT % ⟨divisor⟩ == ⟨reminder⟩",
+    "instance_of": "λ isinstance(INPUT, ⟨TUPLE(*P0)⟩)",
+    "all": "λ builtins.all((f(INPUT) for f in ⟨TUPLE(*P0)⟩))",
+    "any": "λ builtins.any((f(INPUT) for f in ⟨TUPLE(*P0)⟩))",
+    "invert": "λ not ⟨P0⟩(INPUT)",
+    "eq": "λ INPUT == ⟨P0⟩",
+    "ne": "λ INPUT != ⟨P0⟩",
+    "gt": "λ INPUT > ⟨P0⟩",
+    "ge": "λ INPUT >= ⟨P0⟩",
+    "lt": "λ INPUT < ⟨P0⟩",
+    "le": "λ INPUT <= ⟨P0⟩",
+    "has_remainder": "λ INPUT % ⟨P0⟩ == ⟨P1⟩",
     "positive": "gt(0)",
     "negative": "lt(0)",
     "non_positive": "le(0)",
@@ -250,17 +266,17 @@ EXPECTED = {
     "odd": "has_remainder(2, 1)",
     "is_none": "λ INPUT is None",
     "is_not_none": "invert(is_none)",
-    "is_in": "λ INPUT in ⟨container⟩",
-    "is_not_in": "invert(is_in(container))",
-    "one_of": "λ INPUT in ⟨TUPLE(*items)⟩",
-    "none_of": "invert(one_of(*items))",
-    "contains": "λ ⟨value⟩ in INPUT",
-    "does_not_contain": "invert(contains(value))",
-    "intersects": "intersect(iterable) >> bool",
-    "disjoint_from": "invert(intersects(iterable))",
-    "ensure": "λ _ensure(value=INPUT, predicate=⟨__predicate⟩, msg=⟨__msg⟩)",
-    "get_attribute": "λ getattr(INPUT, ⟨__name⟩)",
-    "call_method": "λ _call_method(name=⟨__name⟩, args=⟨args⟩, kwargs=⟨kwargs⟩, obj=INPUT)",
+    "is_in": "λ INPUT in ⟨P0⟩",
+    "is_not_in": "invert(is_in(P0))",
+    "one_of": "λ INPUT in ⟨TUPLE(*P0)⟩",
+    "none_of": "invert(one_of(*P0))",
+    "contains": "λ ⟨P0⟩ in INPUT",
+    "does_not_contain": "invert(contains(P0))",
+    "intersects": "intersect(P0) >> bool",
+    "disjoint_from": "invert(intersects(P0))",
+    "ensure": "λ _ensure(value=INPUT, predicate=⟨P0⟩, msg=⟨P1⟩)",
+    "get_attribute": "λ getattr(INPUT, ⟨P0⟩)",
+    "call_method": "λ _call_method(name=⟨P0⟩, args=⟨P1⟩, kwargs=⟨P2⟩, obj=INPUT)",
 }
 EXPECTED_PRIVATE = {
     "_reduce": "if initial is MISSING:\n    return functools.reduce(func, iterable); return functools.reduce(func, iterable, initial)",
